@@ -12,6 +12,7 @@ import SkVerif.Lemmas.MetricsSym
 import SkVerif.Lemmas.MetricsScale
 import SkVerif.Lemmas.MetricsGM
 import SkVerif.Lemmas.MetricsMulti
+import SkVerif.Lemmas.MetricsMulti2
 import SkVerif.Lemmas.MetricsSpec2
 namespace SkVerif.C06
 open SkVerif SkVerif.Metrics SkVerif.Lem.Metrics
@@ -400,6 +401,69 @@ theorem multioutput_is_per_column {f : Mat → Mat → Option (List Rat) → MO 
 
 example : meanSquaredError [[1, 2, 3], [2, 1, 5]] [[1, 3, 3], [1, 1, 2]] none (.weights [1, 3]) true
     = .ok (.avg 2 (some [1, 3]) [1/3, 10/3]) := by decide +kernel   -- RMSE per column, then weighted average
+
+/-- The relative-error metrics MRAE, MdRAE (any horizon weights) and GMRAE, GMRSE (without horizon weights — with
+weights the code is defective, see section 8) have the analogous skeleton `IsDirect3` over (y_true, y_pred, benchmark) … -/
+theorem relative_metrics (eps : Rat) (sqrt : Bool) :
+    IsDirect3 eps (meanRelativeAbsoluteError eps) (fun _ => True) (fun hw re => npAverage hw (re.map absR)) (fun _ => 1) true ∧
+    IsDirect3 eps (medianRelativeAbsoluteError eps) (fun _ => True) (fun hw re => medianW hw (re.map absR)) (fun _ => 1) false ∧
+    IsDirect3 eps (geometricMeanRelativeAbsoluteError eps) (fun hw => hw = none)
+      (fun _ re => prod (re.map (fun e => floorEps eps (absR e)))) (fun n => n) false ∧
+    IsDirect3 eps (fun a b c h m => geometricMeanRelativeSquaredError eps a b c h m sqrt) (fun hw => hw = none)
+      (fun _ re => prod (re.map (fun e => floorEps eps (sqr e)))) (fun n => rootDeg sqrt n) false :=
+  ⟨isDirect3_mrae eps, isDirect3_mdrae eps, isDirect3_gmrae eps, isDirect3_gmrse eps sqrt⟩
+
+/-- … and for each of them `raw_values` is column-by-column: the j-th value is what the metric returns for
+(y_true[:, j], y_pred[:, j], benchmark[:, j]) alone.
+For GMRAE / GMRSE this is the `_partial` form (hypothesis `hwOk hw`, i.e. no horizon weights). -/
+theorem multioutput_is_per_column_relative_partial {eps : Rat}
+    {f : Mat → Mat → Mat → Option (List Rat) → MO → Except Err Out}
+    {hwOk : Option (List Rat) → Prop} {colf : Option (List Rat) → Col → Rat} {k : Nat → Nat} {ns : Bool}
+    (hd : IsDirect3 eps f hwOk colf k ns) (yt yp yb : Mat) (hw : Option (List Rat)) (hok : hwOk hw) (qs : List Rat)
+    (hRt : Rect yt) (hRp : Rect yp) (hRb : Rect yb) (h : f yt yp yb hw .raw = .ok (.raw (k (nrows yt)) qs))
+    (j : Nat) (hjt : j < yt.length) (hjp : j < yp.length) (hjb : j < yb.length) :
+    ∃ hq : j < qs.length, f [yt[j]] [yp[j]] [yb[j]] hw .uniform = .ok (.avg (k (nrows yt)) none [qs[j]]) :=
+  direct3_raw_per_column hd yt yp yb hw hok qs hRt hRp hRb h j hjt hjp hjb
+
+/-- The four scaled errors and the relative loss with `raw_values`: the j-th value is the metric of column j alone
+(y_train[:, j] resp. benchmark[:, j] included). -/
+theorem multioutput_is_per_column_scaled (eps : Rat) (yt yp tr yb : Mat) (ix : Option (Int × Int)) (sp : Int)
+    (hw : Option (List Rat)) (sqrt : Bool) (f : Base) (out : Out) (hRt : Rect yt) (hRp : Rect yp)
+    (j : Nat) (hjt : j < yt.length) (hjp : j < yp.length) :
+    (Rect tr → ∀ (hjr : j < tr.length),
+      (meanAbsoluteScaledError eps yt yp (.arr tr) ix sp hw .raw = .ok out →
+        ∃ qs, out = .raw 1 qs ∧ ∃ hq : j < qs.length,
+          meanAbsoluteScaledError eps [yt[j]] [yp[j]] (.arr [tr[j]]) ix sp hw .uniform = .ok (.avg 1 none [qs[j]])) ∧
+      (medianAbsoluteScaledError eps yt yp (.arr tr) ix sp hw .raw = .ok out →
+        ∃ qs, out = .raw 1 qs ∧ ∃ hq : j < qs.length,
+          medianAbsoluteScaledError eps [yt[j]] [yp[j]] (.arr [tr[j]]) ix sp hw .uniform = .ok (.avg 1 none [qs[j]])) ∧
+      (meanSquaredScaledError eps yt yp (.arr tr) ix sp hw .raw sqrt = .ok out →
+        ∃ qs, out = .raw (rootDeg sqrt 1) qs ∧ ∃ hq : j < qs.length,
+          meanSquaredScaledError eps [yt[j]] [yp[j]] (.arr [tr[j]]) ix sp hw .uniform sqrt
+            = .ok (.avg (rootDeg sqrt 1) none [qs[j]])) ∧
+      (medianSquaredScaledError eps yt yp (.arr tr) ix sp hw .raw sqrt = .ok out →
+        ∃ qs, out = .raw (rootDeg sqrt 1) qs ∧ ∃ hq : j < qs.length,
+          medianSquaredScaledError eps [yt[j]] [yp[j]] (.arr [tr[j]]) ix sp hw .uniform sqrt
+            = .ok (.avg (rootDeg sqrt 1) none [qs[j]]))) ∧
+    (Rect yb → ∀ (hjb : j < yb.length), relativeLoss eps yt yp yb f hw .raw = .ok out →
+        ∃ qs, out = .raw 1 qs ∧ ∃ hq : j < qs.length,
+          relativeLoss eps [yt[j]] [yp[j]] [yb[j]] f hw .uniform = .ok (.avg 1 none [qs[j]])) := by
+  refine ⟨fun hRr hjr => ⟨fun h => ?_, fun h => ?_, fun h => ?_, fun h => ?_⟩, fun hRb hjb h => ?_⟩
+  · exact scaled_raw_per_column isDirect_mae hRt hRp hRr h j hjt hjp hjr
+  · exact scaled_raw_per_column isDirect_mdae hRt hRp hRr h j hjt hjp hjr
+  · exact scaled_raw_per_column (isDirect_mse false) hRt hRp hRr h j hjt hjp hjr
+  · exact scaled_raw_per_column (isDirect_mdse false) hRt hRp hRr h j hjt hjp hjr
+  · exact relloss_raw_per_column hRt hRp hRb h j hjt hjp hjb
+
+/-- With `uniform_average` / output weights the scaled errors and the relative loss return the averaged loss divided by
+the averaged reference loss (clamped at eps) — the values of the function docstrings' examples — not the average of
+the per-column ratios. -/
+theorem scaled_aggregate_is_ratio_of_averages (eps : Rat) (k : Nat) (ws : Option (List Rat)) (pq nq : List Rat) :
+    ratioOut eps k (.avg 1 ws pq) (.avg 1 ws nq) = .avg k none [npAverage ws pq / maxR (npAverage ws nq) eps] := rfl
+
+example : meanAbsoluteScaledError EPS [[1/2, -1, 7], [1, 1, -6]] [[0, -1, 8], [2, 2, -5]]
+    (.arr [[1/2, -1, 7], [1, 1, -6]]) none 1 none .uniform = .ok (.avg 1 none [2/11]) := by
+  decide +kernel   -- docstring: 0.18181818…, whereas the raw values are 2/19 and 2/7
 
 /-! ## 7. Scaled errors are invariant to rescaling all series -/
 
